@@ -81,6 +81,7 @@ type segment[T TSTable, O any] struct {
 	lastAccessed  atomic.Int64
 	mu            sync.RWMutex
 	refCount      int32
+	unpinned      int32
 	mustBeDeleted uint32
 	id            segmentID
 }
@@ -290,6 +291,15 @@ func (s *segment[T, O]) collectOpenMetrics(shardMetrics Metrics) bool {
 // its deferred delete on the last DecRef.
 func (s *segment[T, O]) DecRef() {
 	for {
+		// A handle returned unpinned by a non-reopening scan is released like
+		// any other; it must not drop a reference that another holder took in
+		// the meantime, so pending unpinned releases are consumed first.
+		if u := atomic.LoadInt32(&s.unpinned); u > 0 {
+			if atomic.CompareAndSwapInt32(&s.unpinned, u, u-1) {
+				return
+			}
+			continue
+		}
 		current := atomic.LoadInt32(&s.refCount)
 		if current <= 0 {
 			// Already dormant; nothing to release. Deletion of a dormant
@@ -638,6 +648,8 @@ func (sc *segmentController[T, O]) selectSegments(timeRange timestamp.TimeRange,
 				for {
 					current := atomic.LoadInt32(&s.refCount)
 					if current <= 0 {
+						// Returned unpinned: the caller's DecRef releases nothing.
+						atomic.AddInt32(&s.unpinned, 1)
 						break
 					}
 					if atomic.CompareAndSwapInt32(&s.refCount, current, current+1) {
@@ -713,6 +725,8 @@ func (sc *segmentController[T, O]) segments(ctx context.Context, reopenClosed bo
 			for {
 				current := atomic.LoadInt32(&sc.lst[i].refCount)
 				if current <= 0 {
+					// Returned unpinned: the caller's DecRef releases nothing.
+					atomic.AddInt32(&sc.lst[i].unpinned, 1)
 					break
 				}
 				if atomic.CompareAndSwapInt32(&sc.lst[i].refCount, current, current+1) {
